@@ -219,6 +219,37 @@ def r7(ctx, prog):
     ctx.floor(R, 6)
 
 
+def r8(ctx, prog):
+    R = ctx.rule("C09.R8", "OS abandoned list: membership is read from the segment's own links, so removing a segment from the list resets both links on every path "
+                           "(otherwise a second thread's reclaim-on-free sees it as still abandoned and adopts it again)")
+    f = prog.fn("mi_arena_segment_os_clear_abandoned")
+    cfg = f.cfg
+    seg = f.param_id(0)
+    # reader: the in-list test reads segment->abandoned_os_next / _prev
+    reads = [m for m in f.all(kind="MemberExpr") if f.nodes[m]["fld"] in ("abandoned_os_next", "abandoned_os_prev") and f.is_ref(f.nodes[m]["c"][0], seg) and f.access(m) == "read"]
+    ctx.check(R, len(reads) >= 2, f.where(), "the in-list test reads the segment's own links", key="C09.R8:reader")
+    # unlink stores: list head / neighbour links
+    unlink = [a for a, l, rhs, op in f.stores() if (rl.field_is(f, l, "abandoned_os_list") or rl.field_is(f, l, "abandoned_os_list_tail") or
+                                                     (f.nodes[f.strip(l)]["k"] == "MemberExpr" and f.nodes[f.strip(l)]["fld"] in ("abandoned_os_next", "abandoned_os_prev") and
+                                                      not f.is_ref(f.nodes[f.strip(l)]["c"][0], seg)))]
+    ctx.check(R, len(unlink) >= 4, f.where(), "unlink stores present (%d)" % len(unlink), key="C09.R8:unlink")
+    for fld in ("abandoned_os_next", "abandoned_os_prev"):
+        def clr(e, fld=fld):
+            n = f.nodes[e]
+            if n["k"] != "BinaryOperator" or n["op"] != "=" or f.cv(n["c"][1]) != 0:
+                return False
+            l = f.strip(n["c"][0])
+            return f.nodes[l]["k"] == "MemberExpr" and f.nodes[l]["fld"] == fld and f.is_ref(f.nodes[l]["c"][0], seg)
+        w = None
+        for u in unlink:
+            w = w or cfg.must_pass([cfg.after(u)], cfg.exit_points(), clr)
+        ctx.check(R, w is None, f.where(), "after unlinking, segment->%s = NULL on every path to the return" % fld, key="C09.R8:%s" % fld, witness=w)
+    g = prog.fn("mi_arena_segment_os_mark_abandoned")
+    ok = any(rl.field_is(g, l, "abandoned_os_prev") for a, l, rhs, op in g.stores()) and any(rl.field_is(g, l, "abandoned_os_next") for a, l, rhs, op in g.stores())
+    ctx.check(R, ok, g.where(), "marking sets both links", key="C09.R8:mark")
+    ctx.floor(R, 5)
+
+
 def run(ctx):
     ctx.explanation = ("Static decision of C09's code-shaped necessary conditions over every CFG path of the thread-exit, abandon, un-abandon and "
                        "reclaim functions: ordering (must-pass-through), never-after-publication, guards on adoption (atomic un-abandon result, "
@@ -227,7 +258,7 @@ def run(ctx):
     for c in (["REL"] if ctx.tier == "quick" else ["REL", "SEC", "DBG"]):
         prog = ctx.prog(c)
         n0 = len(ctx.instances)
-        r1(ctx, prog); r2(ctx, prog); r3(ctx, prog); r4(ctx, prog); r5(ctx, prog); r6(ctx, prog); r7(ctx, prog)
+        r1(ctx, prog); r2(ctx, prog); r3(ctx, prog); r4(ctx, prog); r5(ctx, prog); r6(ctx, prog); r7(ctx, prog); r8(ctx, prog)
         if c != "REL":
             for i in ctx.instances[n0:]:
                 i["site"] += " [%s]" % c
